@@ -215,7 +215,12 @@ func genHeader(r *fw.Rand) []byte {
 		b.WriteString("Subject: c02 " + r.Letters(r.Range(1, 16), "abcdefghij0123") + "\r\n")
 	}
 	if r.Chance(1, 3) {
-		b.WriteString("MIME-Version: 1.0\r\nContent-Type: text/plain; charset=utf-8\r\nContent-Transfer-Encoding: 8bit\r\n")
+		// The declared charset is a statement about the bytes, not an instruction to change them
+		// (legacy charsets added after seeded change C02-8).
+		ct := r.Pick([]string{"text/plain; charset=utf-8", "text/plain; charset=utf-8", "text/plain; charset=iso-8859-1", "text/plain; charset=\"windows-1252\"",
+			"text/html; charset=windows-1251", "text/plain; charset=KOI8-R", "text/plain; charset=Shift_JIS", "text/plain; charset=us-ascii", "text/plain; charset=ISO-8859-15",
+			"text/plain; charset=utf-16", "text/plain; charset=unknown-8bit", "text/plain; charset=gb2312", "TEXT/PLAIN; CHARSET=ISO-8859-2", "text/plain"})
+		b.WriteString("MIME-Version: 1.0\r\nContent-Type: " + ct + "\r\nContent-Transfer-Encoding: 8bit\r\n")
 	}
 	if r.Chance(1, 4) {
 		// folded header
